@@ -15,7 +15,8 @@ FMT = "fmt:a"
 
 TARGETS = ["store_new", "store_dup_unref", "store_additional", "store_bytesio", "tag_unref", "tag_shared",
            "tag_first_noobj", "delete_sole", "delete_shared", "delete_with_meta", "smeta_new",
-           "smeta_overwrite", "dmeta_one", "dmeta_all", "store_rebind", "tag_rebind"]
+           "smeta_overwrite", "dmeta_one", "dmeta_all", "store_rebind", "tag_rebind", "delete_listed_first",
+           "delete_listed_middle"]
 
 
 def prerequisites(kind):
@@ -30,6 +31,10 @@ def prerequisites(kind):
         "tag_first_noobj": [],
         "delete_sole": [{"op": "store", "pid": T, "c": 0}],
         "delete_shared": [{"op": "store", "pid": O1, "c": 0}, {"op": "store", "pid": T, "c": 0}],
+        # the target's line precedes (is between) the sharers' lines in the cid list
+        "delete_listed_first": [{"op": "store", "pid": T, "c": 0}, {"op": "store", "pid": O1, "c": 0}],
+        "delete_listed_middle": [{"op": "store", "pid": O2, "c": 0}, {"op": "store", "pid": T, "c": 0},
+                                 {"op": "store", "pid": O1, "c": 0}],
         "delete_with_meta": [{"op": "store", "pid": T, "c": 0}, {"op": "smeta", "pid": T, "fmt": None, "d": 0},
                              {"op": "smeta", "pid": T, "fmt": FMT, "d": 1}],
         "smeta_new": [],
@@ -54,6 +59,8 @@ def target_op(kind, variant=0):
         "delete_sole": {"op": "delete", "pid": T},
         "delete_shared": {"op": "delete", "pid": T},
         "delete_with_meta": {"op": "delete", "pid": T},
+        "delete_listed_first": {"op": "delete", "pid": T},
+        "delete_listed_middle": {"op": "delete", "pid": T},
         "smeta_new": {"op": "smeta", "pid": T, "fmt": FMT, "d": 1},
         "smeta_overwrite": {"op": "smeta", "pid": T, "fmt": FMT, "d": 1},
         "dmeta_one": {"op": "dmeta", "pid": T, "fmt": FMT},
@@ -155,27 +162,28 @@ class Scenario:
         raise ValueError(k)
 
     def bystander_problem(self, store, alpha, when):
-        """Everything belonging to the other pids must be exactly as in the start state."""
+        """Everything belonging to the other pids must be exactly as in the start state.
+        Returns None or (harm code, text); harm codes: served | pidref | list-count | metadata."""
         cfg = self.cfg
         now = self.observe(store)
         for key, v in self.served0.items():
             if key[1] == T:
                 continue
             if now[key] != v:
-                return (f"{when}: {key[0]} of bystander {key[1]!r}"
+                return ("served", f"{when}: {key[0]} of bystander {key[1]!r}"
                         f"{'' if key[0] == 'obj' else ' format ' + str(key[2])} was {_s(v)} and is now {_s(now[key])}")
         for p in (O1, O2):
             h = cfg.H(p)
             if alpha["pidrefs"].get(h) != self.alpha0["pidrefs"].get(h):
-                return f"{when}: pid reference of bystander {p!r} changed"
+                return ("pidref", f"{when}: pid reference of bystander {p!r} changed")
             for c, l in self.alpha0["cidrefs"].items():
                 if l.count(p) != alpha["cidrefs"].get(c, []).count(p):
-                    return (f"{when}: bystander {p!r} appears {alpha['cidrefs'].get(c, []).count(p)}x in the list of "
-                            f"{c[:10]}.. (was {l.count(p)}x); list now {alpha['cidrefs'].get(c)}")
+                    return ("list-count", f"{when}: bystander {p!r} appears {alpha['cidrefs'].get(c, []).count(p)}x in the "
+                            f"list of {c[:10]}.. (was {l.count(p)}x); list now {alpha['cidrefs'].get(c)}")
             d0 = {k: v for k, v in self.alpha0["metadata"].items() if k[0] == h}
             d1 = {k: v for k, v in alpha["metadata"].items() if k[0] == h}
             if d0 != d1:
-                return f"{when}: metadata documents of bystander {p!r} changed"
+                return ("metadata", f"{when}: metadata documents of bystander {p!r} changed")
         return None
 
     def summary(self):
